@@ -12,10 +12,10 @@ TITLE = "Each node's math/text mode is the one implied by the enclosing structur
 ANY = object()
 # harness-side knowledge of which arguments / bodies switch mode (from the declarations in vlib/ctx.py and the
 # documented behaviour of the default database)
-TEXT_ARG_MACROS = {'S': {'t': (0,)}, 'D': {'text': (0,), 'textrm': (0,), 'textbf': (0,), 'textit': (0,), 'mbox': (0,),
+TEXT_ARG_MACROS = {'S': {'t': (0,), 'u': (0,)}, 'D': {'text': (0,), 'textrm': (0,), 'textbf': (0,), 'textit': (0,), 'mbox': (0,),
                                          'textsf': (0,), 'texttt': (0,), 'emph': (0,)}}
-MATH_ARG_MACROS = {'S': {'m': (0,)}, 'D': {'ensuremath': (0,)}}
-MATH_ENVS = {'S': ('M',), 'D': ('align', 'align*', 'equation', 'equation*', 'gather', 'eqnarray')}
+MATH_ARG_MACROS = {'S': {'m': (0,), 'w': (0,)}, 'D': {'ensuremath': (0,)}}
+MATH_ENVS = {'S': ('M', 'N'), 'D': ('align', 'align*', 'equation', 'equation*', 'gather', 'eqnarray')}
 DISPLAY_OPEN = ('$$', BS + '[')
 
 
@@ -106,6 +106,8 @@ SK_S = [
     ('m_in_t_in_math', '$' + BS + 't{' + BS + 'm{?}?}?$'), ('env_M', BS + 'begin{M}?' + BS + 't{?}?' + BS + 'end{M}'),
     ('grp_math', '{?$?$}?$?$'), ('M_in_math', '$?' + BS + 't{' + BS + 'begin{M}?' + BS + 'end{M}}$'),
     ('math_grp', '$?{?}?$?'), ('paren_d', BS + '(?$?' + BS + ')'), ('dd_in_t', '$' + BS + 't{$$?$$?}$'),
+    ('u_two_args', '$?' + BS + 'u{?}{?}?$'), ('u_text', BS + 'u{?$?$}{?}'), ('w_three', BS + 'w{?}[?]{?}?'),
+    ('w_in_text_in_math', '$' + BS + 't{' + BS + 'w{?}{?}?}$'), ('env_N', BS + 'begin{N}?' + BS + 't{?}?' + BS + 'end{N}?'),
     ('env_E_math', '$' + BS + 'begin{E}?' + BS + 'end{E}?$'), ('b_in_math', '$' + BS + 'b[?]{?}$?'),
 ]
 SK_D = [
